@@ -7,7 +7,8 @@ rm -rf $S; mkdir -p $S/clean $S/with
 git -C /repo archive HEAD src | tar -x -C $S/clean
 git -C /repo archive HEAD src | tar -x -C $S/with
 (cd $S/with && git apply $OUT/patch.diff) || { echo "patch does not apply to HEAD"; exit 2; }
-build() { g++ -std=c++17 -O1 -pthread -w -DBUILD_WITH_EASY_PROFILER=0 -I$1/src -I/verif/harness/include $OUT/demo.cpp $(find $1/src/mustache -name '*.cpp' ! -name c_api.cpp) -o $2 2>&1 | tail -3; }
+EXCL=c_api.cpp; grep -q 'c_api.h' $OUT/demo.cpp && EXCL=none.cpp
+build() { g++ -std=c++17 -O1 -pthread -w -DBUILD_WITH_EASY_PROFILER=0 -I$1/src -I/verif/harness/include $OUT/demo.cpp $(find $1/src/mustache -name '*.cpp' ! -name $EXCL) -o $2 2>&1 | tail -3; }
 build $S/with $S/demo_with & build $S/clean $S/demo_without & wait
 timeout 300 $S/demo_with >$S/with.out 2>&1; RC_WITH=$?
 timeout 300 $S/demo_without >$S/without.out 2>&1; RC_WITHOUT=$?
